@@ -157,10 +157,13 @@ pub enum WBackend {
     Adapter,
     /// harness-owned WordWrite that records every delivered word
     Recording,
+    /// WordAdapter over a harness-owned byte sink that accepts at most 3 bytes per write call
+    /// (short writes are allowed by the std::io::Write contract)
+    AdapterChunked,
 }
 
 impl WBackend {
-    pub const ALL: [WBackend; 5] = [WBackend::VecOwned, WBackend::VecBorrowed, WBackend::Slice, WBackend::Adapter, WBackend::Recording];
+    pub const ALL: [WBackend; 6] = [WBackend::VecOwned, WBackend::VecBorrowed, WBackend::Slice, WBackend::Adapter, WBackend::Recording, WBackend::AdapterChunked];
 }
 
 /// How the writer is terminated.
@@ -275,11 +278,14 @@ pub struct RCfg {
     pub r: RKind,
     pub backend: RBackend,
     pub wrap: RWrap,
+    /// bits consumed from the bare reader *before* it is wrapped (the wrapper then starts in mid-stream)
+    #[serde(default)]
+    pub pre: u16,
 }
 
 impl RCfg {
     pub fn new(e: En, r: RKind, backend: RBackend) -> Self {
-        RCfg { e, r, backend, wrap: RWrap::None }
+        RCfg { e, r, backend, wrap: RWrap::None, pre: 0 }
     }
     pub fn name(&self) -> String {
         format!("{}/{}/{:?}{}", self.e.name(), self.r.name(), self.backend, match self.wrap {
